@@ -180,7 +180,9 @@ def streams(ctx):
          ("F-C05-4", "npm", fuzzgen.SEEDS["npm"][0][:115], None),      # a package.json cut in the middle of typing a value
          ("F-C05-5", "crates", '[dependencies]\nserde = \"\"\"\n1.0\"\"\"\n', None),
          ("F-C05-6", "go", "module m\n\nrequire example.com/v1.2.3/x v1.2.3\n", "v1.2.3"),
-         ("F-C05-2", "go", "module m\r\n\r\nrequire (\r\n\texample.com/x v1.2.3\r\n)\r\n", "v1.2.3")]
+         ("F-C05-2", "go", "module m\r\n\r\nrequire (\r\n\texample.com/x v1.2.3\r\n)\r\n", "v1.2.3"),
+         ("F-C05-7", "pnpm", "catalog:\n  lodash: \u2028'4.17.21'\n", "4.17.21"),
+         ("F-C05-6", "go", "module m\n\n\t require example.com/v1.2.3/x v1.2.3\n", "v1.2.3")]
     cw = [{"req": vlib.line("l.parse", eco, text), "eco": eco, "tag": ("witness", kid)} for kid, eco, text, _ in W]
 
     def derive_w(cs, impl):
@@ -191,9 +193,9 @@ def streams(ctx):
             for p in (pkgs_of(o) if not o.startswith(("PANIC", "ABORT", "HANG")) else []):
                 if structural(text, p):
                     broken = True
-                elif spec is not None and (b[p["start"]:p["end"]].decode("utf-8", "replace") != spec or p["start"] != text.rfind(spec)):
+                elif spec is not None and (b[p["start"]:p["end"]].decode("utf-8", "replace") != spec or p["start"] != b.rfind(spec.encode("utf-8"))):
                     broken = True
-                else:
+                elif kid != "F-C05-7":      # (that witness needs a non-ASCII character before the value: its UTF-16 column is F-C05-3's subject)
                     ls = b.rfind(b"\n", 0, p["start"]) + 1
                     if utf16_len(b[ls:p["start"]].decode("utf-8")) != p["col"]:
                         broken = True
